@@ -34,7 +34,9 @@ structure Chan where
   hasReceiver : Bool := true
   /-- `blocked_recv`: the parked receiver's waker -/
   blocked : LocalWaker := {}
-  /-- live `Sender` handles -/
+  /-- live `Sender` handles, newest first (a `clone` of the newest sender, `Receiver::sender()` and the
+  drop of the newest sender are O(1) in the compiled driver: populations of 65 537 senders are driven
+  through it; nothing depends on the order) -/
   senders : List Nat := [0]
   nextSender : Nat := 1
   /-- the `Receiver` handle has not been dropped -/
@@ -137,7 +139,7 @@ def step (c : Chan) : Op → Option (Chan × Obs)
     else none
   | .clone i =>
     if i ∈ c.senders then
-      some ({ c with senders := c.senders ++ [c.nextSender], nextSender := c.nextSender + 1 }, .sender c.nextSender)
+      some ({ c with senders := c.nextSender :: c.senders, nextSender := c.nextSender + 1 }, .sender c.nextSender)
     else none
   | .dropSender i =>
     if i ∈ c.senders then
@@ -160,7 +162,7 @@ def step (c : Chan) : Op → Option (Chan × Obs)
     else none
   | .senderFromReceiver =>
     if c.recvAlive then
-      some ({ c with senders := c.senders ++ [c.nextSender], nextSender := c.nextSender + 1 }, .sender c.nextSender)
+      some ({ c with senders := c.nextSender :: c.senders, nextSender := c.nextSender + 1 }, .sender c.nextSender)
     else none
   | .dropReceiver =>
     if c.recvAlive then
